@@ -10,6 +10,7 @@ for finite state automaton processing.
 
 # flake8: noqa
 from pyab_experiment.sly import Lexer
+from pyab_experiment.sly.lex import LexError
 
 
 class ExperimentLexer(Lexer):
@@ -126,8 +127,13 @@ class ExperimentLexer(Lexer):
         self.lineno += t.value.count("\n")
 
     def error(self, t):
-        print("Illegal character '%s'" % t.value[0])
-        self.index += 1
+        # a character that belongs to no token is an error in the source,
+        # never something to skip: the text would compile to another experiment
+        raise LexError(
+            f"Illegal character {t.value[0]!r} at index {self.index}",
+            t.value,
+            self.index,
+        )
 
 
 class BlockComment(Lexer):
